@@ -204,8 +204,8 @@ microlp itself reports for the same problem and options (mirror call: `optimal`,
 `unknown` when the mirror did not return a solution).
 
 Root-cause signature of the known defect (kind `milp-limit-status-not-read`): a time limit was set, the unlimited
-answer of the same entry point is right, and microlp says the search did NOT finish (`feasible` / `interrupted`) —
-yet rooc answered `Ok` + `Optimal`. -/
+answer of the same entry point is right, (for the clock-independent 0 ns limit:) microlp says the search did NOT
+finish (`feasible` / `interrupted`) — yet rooc answered `Ok` + `Optimal` with a wrong point / value. -/
 def checkLabel (lm : LinModel (Ext Rat)) (o : MilpOpts) (r r0 : ImplRes (Ext Rat)) (rawStatus : String) : Sexp :=
   match exact lm with
   | .error why => okS [.atom "skipped", .atom why]
@@ -219,7 +219,10 @@ def checkLabel (lm : LinModel (Ext Rat)) (o : MilpOpts) (r r0 : ImplRes (Ext Rat
     | .err "Unbounded", .unbounded => true
     | _, _ => false
   let limited := o.limitNs.isSome
-  let statusIgnored := limited && baselineRight && (rawStatus == "interrupted" || rawStatus == "feasible")
+  -- the mirror call is evidence only where the clock plays no role (0 ns); for positive limits the two calls may be
+  -- hit differently by the clock, so there the signature is "limit set, unlimited answer right, limited answer wrong"
+  let mirrorSaysUnfinished := rawStatus == "interrupted" || rawStatus == "feasible"
+  let statusIgnored := limited && baselineRight && (o.limitNs != some 0 || mirrorSaysUnfinished)
   let viol (k : String) (d : List Sexp) : Sexp :=
     if statusIgnored then SolveOracle.viol "milp-limit-status-not-read" (.atom k :: .atom rawStatus :: d) else SolveOracle.viol k d
   let cause (k : String) : String := k
